@@ -8,6 +8,8 @@ import (
 	"fmt"
 	"os"
 	"path/filepath"
+	"runtime"
+	"runtime/pprof"
 	"sort"
 	"strconv"
 	"strings"
@@ -212,6 +214,13 @@ func check(args []string) {
 		col, st := analyse(p, prop, tier, map[string]*rules.UnitResult{})
 		total.Merge(col)
 		stats.Merge(&st)
+	}
+	if f := os.Getenv("FLYTSA_HEAPPROF"); f != "" {
+		runtime.GC()
+		if w, err := os.Create(f); err == nil {
+			pprof.WriteHeapProfile(w)
+			w.Close()
+		}
 	}
 	var extra map[string]any
 	if *tierName == "thorough" && overlay == nil {
